@@ -6,6 +6,10 @@ Case = {"kind": "ds"|"dsu"|"cg",           Dataset() | Dataset(default_union=Tru
         "quads": [[s,p,o,g]…],               g = "D" (default graph) | "i<n>" | "b<n>"
         "api": int,                          which public calls build the dataset / bytes vs str input
         "enc": [format, encoding] | None,    serialize(format, encoding=…) for that ONE format (utf-8 | latin-1 | ascii | utf-16)
+        "opt": [format, {keyword: value}] | None,   further serializer keywords for ONE format: json-ld context (prefix terms,
+                                             @vocab, plain terms equal to graph / predicate IRIs, @base), auto_compact,
+                                             use_native_types, use_rdf_type, base, sort_keys, indent, ensure_ascii; trig base,
+                                             spacious; nquads / trix / hext base; patch header_id, header_prev
         "d2": {"reg": […], "quads": […]} | None}      second dataset for the patch clause (ds/dsu only)
 Terms are tokens into the vocabulary below (i = IRI, l = literal, b = blank node); a graph name
 shares its token with the same term used inside triples.
@@ -25,6 +29,7 @@ import math
 import re
 import warnings
 import xml.etree.ElementTree as ET
+from urllib.parse import urljoin
 
 import core  # noqa: F401
 import isoutil
@@ -41,7 +46,8 @@ CASES = {"quick": 2000, "thorough": 40000, "search": 20000}
 RULE = ("random datasets: 0-4 named graphs (IRI and blank-node names, registered-but-empty graphs, empty or "
         "non-empty default graph), triples shared by several graphs, blank nodes shared across graphs and with "
         "graph names, graph names occurring as subject/object, awkward and non-ASCII literals/IRIs, well-formed RDF "
-        "collections inside default / named / two graphs; optional serialize(encoding=) on one format; built through Dataset(), "
+        "collections inside default / named / two graphs; optional serialize(encoding=) on one format and optional "
+        "serializer keywords (json-ld context / auto_compact / base / …, trig base, …) on one format; built through Dataset(), "
         "Dataset(default_union=True) or ConjunctiveGraph() with varying public calls; each serialised in "
         "nquads/trig/trix/hext/json-ld/patch and parsed into an empty Dataset; plus a random edit d2 of the dataset for "
         "the patch clause.  non-trivial = at least two destination graphs carry triples or a blank node is a graph "
@@ -86,6 +92,12 @@ NONASCII_NAMES = ["i13", "i14", "i15"]
 NONASCII = {"i13", "i14", "i15", "l5", "l11"}
 ENCODINGS = ["utf-8", "latin-1", "ascii", "utf-16"]      # None = the default (str result) is the no-axis case
 FORMATS = ["nquads", "trig", "trix", "hext", "jsonld", "patch"]
+# serializer keywords (one format per case); the JSON-LD contexts cover the namespaces the graph names live in
+CTX_PREFIXES = [("e", E), ("cd", E + "c/d#"), ("u", "urn:g:"), ("rdf", str(RDF)), ("xsd", str(XSD))]
+CTX_TERMS = [("g1", E + "g1"), ("g2", E + "g2"), ("a", E + "a"), ("p", E + "p"), ("q", E + "q"), ("three", "urn:g:3"),
+             ("b", E + "b")]
+CTX_VOCABS = [E, E, E + "c/d#", "urn:g:"]
+BASES = [E, E + "x/y", E + "c/"]
 RDFLIB_FMT = {"jsonld": "json-ld"}
 
 
@@ -277,6 +289,52 @@ def _edit(rng, reg, quads):
     return reg2, out
 
 
+def _gen_opts(rng, F):
+    o = {}
+    if F == "jsonld":
+        r = rng.random()
+        if r < 0.2:
+            o["auto_compact"] = True
+        elif r < 0.85:
+            ctx = {}
+            for pfx, ns in rng.sample(CTX_PREFIXES, rng.randint(0, 2)):
+                ctx[pfx] = ns
+            if rng.random() < 0.5:
+                ctx["@vocab"] = rng.choice(CTX_VOCABS)
+            for t, iri in rng.sample(CTX_TERMS, rng.choice([0, 0, 1, 2, 3])):
+                ctx[t] = iri
+            if rng.random() < 0.2:
+                ctx["@base"] = rng.choice(BASES)
+            if not ctx:
+                ctx["@vocab"] = E
+            o["context"] = ctx
+        if rng.random() < 0.25:
+            o["use_native_types"] = rng.choice([True, False])
+        if rng.random() < 0.25:
+            o["use_rdf_type"] = True
+        if rng.random() < 0.2:
+            o["base"] = rng.choice(BASES)
+        if rng.random() < 0.1:
+            o["sort_keys"] = False
+        if rng.random() < 0.1:
+            o["indent"] = None
+        if rng.random() < 0.1:
+            o["ensure_ascii"] = True
+    elif F == "trig":
+        if rng.random() < 0.7:
+            o["base"] = rng.choice(BASES)
+        if rng.random() < 0.4 or not o:
+            o["spacious"] = True
+    elif F == "patch":
+        if rng.random() < 0.7:
+            o["header_id"] = "urn:h:1"
+        if rng.random() < 0.5 or not o:
+            o["header_prev"] = "urn:h:0"
+    else:
+        o["base"] = rng.choice(BASES)
+    return o
+
+
 def gen_case(rng, tier, i):
     kind = rng.choice(["ds", "ds", "ds", "dsu", "dsu", "cg"])
     enc = None
@@ -287,7 +345,11 @@ def gen_case(rng, tier, i):
     if kind != "cg" and rng.random() < 0.6:
         reg2, quads2 = _edit(rng, reg, quads)
         d2 = {"reg": reg2, "quads": quads2}
-    return {"kind": kind, "reg": reg, "quads": quads, "api": rng.randrange(6), "d2": d2, "enc": enc}
+    opt = None
+    if rng.random() < 0.45:       # serializer keywords, on ONE format per case (json-ld has by far the most)
+        F = rng.choice(["jsonld"] * 5 + (FORMATS if kind != "cg" else FORMATS[:-1]))
+        opt = [F, _gen_opts(rng, F)]
+    return {"kind": kind, "reg": reg, "quads": quads, "api": rng.randrange(6), "d2": d2, "enc": enc, "opt": opt}
 
 
 # ------------------------------------------------------------------ building the datasets through the public API
@@ -395,7 +457,7 @@ def read_patch(text):
     rows = []
     for ln in text.split("\n"):
         ln = ln.strip()
-        if not ln or ln in ("TX .", "TC ."):
+        if not ln or ln in ("TX .", "TC .") or ln.startswith("H "):
             continue
         op, body = ln[0], ln[1:]
         if op not in "AD" or not body.startswith(" "):
@@ -462,43 +524,89 @@ def read_trix(text):
     return st
 
 
-def _jl_node_id(x):
-    return ("b", x[2:]) if x.startswith("_:") else ("i", x)
+class _JlCtx:
+    """IRI expansion of JSON-LD 1.1 (§5.2) for the contexts the harness generates: string-valued term
+    definitions (terms and prefixes), @vocab, @base; written from the specification, not from rdflib."""
+
+    def __init__(self, ctx, base):
+        self.terms, self.vocab, self.base = {}, None, base
+        for c in (ctx if isinstance(ctx, list) else [ctx]):
+            for k, v in (c or {}).items():
+                if k == "@vocab":
+                    self.vocab = v
+                elif k == "@base":
+                    self.base = urljoin(self.base, v) if self.base else v
+                elif k.startswith("@"):
+                    raise ValueError("context keyword %s is not generated by the harness" % k)
+                elif isinstance(v, str):
+                    self.terms[k] = v
+                else:
+                    raise ValueError("expanded term definitions are not generated by the harness")
+
+    def expand(self, x, vocab):
+        if x.startswith("_:"):
+            return ("b", x[2:])
+        if x.startswith("@"):
+            raise ValueError("keyword as IRI: " + x)
+        if vocab and x in self.terms:
+            return ("i", self.terms[x])
+        if ":" in x:
+            pfx, sfx = x.split(":", 1)
+            if not sfx.startswith("//") and pfx in self.terms and self.terms[pfx][-1:] in ":/?#[]@":
+                return ("i", self.terms[pfx] + sfx)
+            return ("i", x)
+        if vocab:
+            if self.vocab is None:
+                raise ValueError("vocabulary-relative name %r without @vocab" % x)
+            return ("i", self.vocab + x)
+        if self.base is None:
+            return ("i", x)            # stays relative: not an IRI of the vocabulary, shows up as unknown term
+        return ("i", urljoin(self.base, x))
 
 
 _LISTN = [0]
 
 
-def _jl_value(v):
+def _jl_value(v, cx):
+    if isinstance(v, bool):                  # native JSON values
+        return _lkey("true" if v else "false", str(XSD.boolean), None)
+    if isinstance(v, int):
+        return _lkey(str(v), str(XSD.integer), None)
+    if isinstance(v, str):
+        return _lkey(v, None, None)
     if isinstance(v, dict) and "@id" in v:
-        return _jl_node_id(v["@id"])
+        return cx.expand(v["@id"], False)
     if isinstance(v, dict) and "@value" in v:
-        val = v["@value"]
-        if isinstance(val, bool):          # native JSON values (the serializer uses them for xsd:boolean/integer)
-            val = "true" if val else "false"
+        val, dt = v["@value"], v.get("@type")
+        if isinstance(val, bool):
+            val, dt = ("true" if val else "false"), dt or str(XSD.boolean)
         elif isinstance(val, int):
-            val = str(val)
+            val, dt = str(val), dt or str(XSD.integer)
         elif not isinstance(val, str):
             raise ValueError("native JSON value")
-        return _lkey(val, v.get("@type"), v.get("@language"))
+        if dt is not None:
+            dt = cx.expand(dt, True)[1]
+        return _lkey(val, dt, v.get("@language"))
     raise ValueError("unexpected JSON-LD value %r" % (v,))
 
 
-def _jl_list(items, spell, st):
+def _jl_list(items, spell, st, cx):
     """@list → rdf:first/rest cells with labels of their own (a member may itself be a @list)"""
     head = ("i", str(RDF.nil))
+    if not isinstance(items, list):
+        items = [items]
     for v in reversed(items):
         _LISTN[0] += 1
         cell = ("b", "jl%d" % _LISTN[0])
-        member = _jl_list(v["@list"], spell, st) if isinstance(v, dict) and "@list" in v else _jl_value(v)
+        member = _jl_list(v["@list"], spell, st, cx) if isinstance(v, dict) and "@list" in v else _jl_value(v, cx)
         st.append((spell, cell, ("i", str(RDF.first)), member))
         st.append((spell, cell, ("i", str(RDF.rest)), head))
         head = cell
     return head
 
 
-def _jl_node(node, spell, st):
-    s = _jl_node_id(node["@id"])
+def _jl_node(node, spell, st, cx):
+    s = cx.expand(node["@id"], False)
     for k, vals in node.items():
         if k in ("@id", "@graph", "@context"):
             continue
@@ -506,28 +614,42 @@ def _jl_node(node, spell, st):
             vals = [vals]
         for v in vals:
             if k == "@type":
-                o = _jl_node_id(v) if isinstance(v, str) else _jl_node_id(v["@id"])
+                o = cx.expand(v, True) if isinstance(v, str) else cx.expand(v["@id"], False)
                 st.append((spell, s, ("i", str(RDF.type)), o))
-            elif isinstance(v, dict) and "@list" in v:
-                st.append((spell, s, ("i", k), _jl_list(v["@list"], spell, st)))
+                continue
+            p = cx.expand(k, True)
+            if isinstance(v, dict) and "@list" in v:
+                st.append((spell, s, p, _jl_list(v["@list"], spell, st, cx)))
             else:
-                st.append((spell, s, ("i", k), _jl_value(v)))
+                st.append((spell, s, p, _jl_value(v, cx)))
 
 
-def read_jsonld(text):
+def _jl_item(item, spell, st, cx, top):
+    if "@graph" in item:
+        inner = spell
+        if "@id" in item:
+            if spell is not None:
+                raise ValueError("graph object inside a named graph")
+            inner = cx.expand(item["@id"], False)
+        content = item["@graph"]
+        for n in (content if isinstance(content, list) else [content]):
+            _jl_item(n, inner, st, cx, False)
+        if "@id" in item and any(k not in ("@id", "@graph", "@context") for k in item):
+            _jl_node(item, spell, st, cx)     # the same object is also a node of the enclosing (default) graph
+    elif "@id" in item:
+        _jl_node(item, spell, st, cx)
+    elif top and set(item) <= {"@context"}:
+        pass
+    else:
+        raise ValueError("node object without @id")
+
+
+def read_jsonld(text, base=None):
     doc = json.loads(text)
-    if isinstance(doc, dict):
-        doc = [doc]
+    cx = _JlCtx(doc.get("@context") if isinstance(doc, dict) else None, base)
     st = []
-    for item in doc:
-        if "@graph" in item:
-            spell = _jl_node_id(item["@id"]) if "@id" in item else None
-            for n in item["@graph"]:
-                _jl_node(n, spell, st)
-            if any(k not in ("@id", "@graph", "@context") for k in item):
-                _jl_node(item, None, st)          # the same object is also a node of the default graph
-        else:
-            _jl_node(item, None, st)
+    for item in (doc if isinstance(doc, list) else [doc]):
+        _jl_item(item, None, st, cx, True)
     return st
 
 
@@ -645,8 +767,11 @@ def run_impl(case):
     before = got_quads(ds)
     enc_axis = case.get("enc")
 
-    def parse_back(fmt, data):
-        return got_quads(Dataset(default_union=(api % 3 == 0)).parse(data=data, format=fmt))
+    opt_axis = case.get("opt")
+
+    def parse_back(fmt, data, base=None):
+        kw2 = {"publicID": base} if base else {}     # the caller who serialised relative to a base parses with it
+        return got_quads(Dataset(default_union=(api % 3 == 0)).parse(data=data, format=fmt, **kw2))
 
     def is_ok(got):
         # a ConjunctiveGraph's default context is also a blank-node-named graph of the store: both readings
@@ -658,6 +783,17 @@ def run_impl(case):
             continue
         fmt = RDFLIB_FMT.get(F, F)
         kw = {"operation": "add"} if F == "patch" else {}
+        opts = dict(opt_axis[1]) if opt_axis and opt_axis[0] == F else {}
+        if opts:
+            kw.update(opts)
+            for k in opts:
+                stats["opt_%s_%s" % (F, k)] = 1
+            for k in (opts.get("context") or {}):
+                stats["ctx_" + ("term" if k[0] != "@" and opts["context"][k][-1:] not in "/#:" else
+                                "prefix" if k[0] != "@" else k[1:])] = 1
+            if opts.get("auto_compact"):
+                ds.bind("e", E)
+        base = opts.get("base")
         enc = enc_axis[1] if enc_axis and enc_axis[0] == F else None
         # candidates = [(document text for the independent reader, document as handed to the parser)]
         try:
@@ -694,7 +830,7 @@ def run_impl(case):
         results = []
         for text, doc in cands:
             try:
-                got = parse_back(fmt, doc)
+                got = parse_back(fmt, doc, base)
                 results.append((is_ok(got), text, got, None))
             except Exception as e:  # noqa: BLE001
                 results.append((False, text, None, e))
@@ -709,7 +845,7 @@ def run_impl(case):
                 if any(r[0] != "A" for r in read_patch(text)):
                     viol.append("patch-rows: an add patch contains a non-A row")
             else:
-                st = READERS[F](text)
+                st = read_jsonld(text, base) if F == "jsonld" else READERS[F](text)
             obs.append(line(stmt_rows(st, bmap)))
         except Exception as e:  # noqa: BLE001
             obs.append("ERR-read:" + _exc(e))
@@ -767,7 +903,7 @@ def run_impl(case):
                   "nested_list": int(any(q[1] == "i10" and q[2] in CELLS for q in quads)),
                   "empty_list": int(any(q[2] == "i12" and q[1] != "i11" for q in quads))})
     return {"obs": obs, "viol": viol, "nontrivial": len(dests) >= 2 or bool(bn_names),
-            "key": json.dumps([kind, sorted(reg), sorted(quads), case.get("d2"), case.get("enc")], sort_keys=True),
+            "key": json.dumps([kind, sorted(reg), sorted(quads), case.get("d2"), case.get("enc"), case.get("opt")], sort_keys=True),
             "stats": stats}
 
 
@@ -812,6 +948,15 @@ def shrink(case):
     quads, reg, d2 = case["quads"], case["reg"], case.get("d2")
     if case.get("enc"):
         yield {**case, "enc": None}
+    if case.get("opt"):
+        yield {**case, "opt": None}
+        F, o = case["opt"]
+        for k in o:
+            yield {**case, "opt": [F, {k2: v for k2, v in o.items() if k2 != k}]}
+        ctx = o.get("context")
+        if ctx and len(ctx) > 1:
+            for k in ctx:
+                yield {**case, "opt": [F, {**o, "context": {k2: v for k2, v in ctx.items() if k2 != k}}]}
     if d2 is not None:
         yield {**case, "d2": None}
         for i in range(len(d2["quads"])):
